@@ -222,12 +222,24 @@ func (s *Sched) onPoint(store any, op string, key []byte) error {
 	if inst == nil {
 		return nil
 	}
+	if inst.Closed && op == "batchstore" {
+		// badger's WriteBatch.Flush never returns on a closed database (it waits for a watermark that
+		// nobody advances any more, holding the batch mutex its own callback needs).  The request would
+		// hang for ever without producing a signature; the simulator cannot run a goroutine that is
+		// blocked on a mutex, so it makes the call fail instead and counts it.
+		s.rc.Stats.Inc("emulated_batchstore_on_closed_store", 1)
+		return errors.New("verif: batch store on a closed database (would hang in badger)")
+	}
 	k := ""
 	if len(key) > 0 {
 		k = s.KeyName(key)
 	}
 	inst.inStoreOp.Add(1)
 	r := s.Yield(KPoint, op, k, nil, inst, nil)
+	if r.Err == nil && inst.Closed && op == "batchstore" {
+		s.rc.Stats.Inc("emulated_batchstore_on_closed_store", 1)
+		r.Err = errors.New("verif: batch store on a closed database (would hang in badger)")
+	}
 	if r.Err != nil {
 		inst.inStoreOp.Add(-1)
 	}
